@@ -109,7 +109,7 @@ func c19Gen(c *vfCtx, emit func(c19Case)) {
 			seen[acc] = true
 			vals = append(vals, acc)
 		}
-		if d == 3 || (!c.thorough() && d == 2) {
+		if d == 5 || (!c.thorough() && d == 3) {
 			return
 		}
 		for _, t := range toks {
